@@ -35,6 +35,8 @@ def check(ctx):
     ctx.rule("R04.3", "the link variable is exp(-i A.(r_e1 - r_e0)) in builder and refresh alike", 4)
     ctx.rule("R04.4", "a constant shift of mu multiplies psi' by a global phase and leaves |psi'|^2 unchanged", 2)
     ctx.rule("R04.5", "covariant operators are written only by MeshOperators.__init__/set_link_exponents; the solver passes A_applied (+A_induced)", 3)
+    ctx.rule("R04.8", "a gauge-transformed potential always reaches the operators: set_link_exponents never skips the refresh on a comparison with a "
+                      "remembered view of the caller's array (shared with C10 R10.9)", 1)
     ctx.rule("R04.7", "the vector potential itself (gauge dependent) reaches the physics only through the link variables and through "
                       "differences in time: no other use of the applied/total potential or of MeshOperators.link_exponents", 2)
     ctx.rule("R04.6", "the operators acting on psi always carry complex link variables: no caller builds them without "
@@ -149,6 +151,8 @@ def check(ctx):
            consequence="the operators are built for a different vector potential than the one recorded")
     from .c10 import link_callers
     link_callers(ctx, "R04.6")
+    from .c10 import no_skipped_refresh
+    no_skipped_refresh(ctx, "R04.8")
     potential_uses(ctx)
     fo = repo.func(SOLVER, "TDGLSolver.solve_for_observables")
     src = ast.unparse(fo.node)
